@@ -1,0 +1,70 @@
+//go:build verif
+
+package tbtc
+
+import (
+	"context"
+	"crypto/ecdsa"
+	"fmt"
+
+	"github.com/keep-network/keep-core/pkg/bitcoin"
+)
+
+// Thin exported wrappers used by the /verif harness (property C46, deadline
+// enforcement). They call the production deadline helper and build the
+// transaction-based wallet actions with their production constructors so
+// that execute() can be run with a scripted block waiter and a signing
+// executor that only reports the context and start block it receives.
+
+// VerifC46WithCancelOnBlock calls withCancelOnBlock.
+func VerifC46WithCancelOnBlock(
+	ctx context.Context,
+	block uint64,
+	waitForBlockFn func(context.Context, uint64) error,
+) (context.Context, context.CancelFunc) {
+	return withCancelOnBlock(ctx, block, waitForBlockFn)
+}
+
+// VerifC46ExecuteAction builds the transaction-based wallet action matching
+// the type of the given proposal (*DepositSweepProposal, *RedemptionProposal,
+// *MovingFundsProposal or *MovedFundsSweepProposal) with its production
+// constructor and runs its execute(). The signing executor reports the
+// context and start block it is called with and returns report's error.
+func VerifC46ExecuteAction(
+	chain Chain,
+	btcChain bitcoin.Chain,
+	walletPublicKey *ecdsa.PublicKey,
+	proposal interface{},
+	startBlock uint64,
+	expiryBlock uint64,
+	waitForBlockFn func(context.Context, uint64) error,
+	report func(ctx context.Context, startBlock uint64) error,
+) error {
+	executingWallet := wallet{publicKey: walletPublicKey}
+	signer := &verifC46BatchSigner{report}
+
+	switch p := proposal.(type) {
+	case *DepositSweepProposal:
+		return newDepositSweepAction(
+			logger.With(), chain, btcChain, executingWallet, signer, p,
+			startBlock, expiryBlock, waitForBlockFn,
+		).execute()
+	case *RedemptionProposal:
+		return newRedemptionAction(
+			logger.With(), chain, btcChain, executingWallet, signer, p,
+			startBlock, expiryBlock, waitForBlockFn,
+		).execute()
+	case *MovingFundsProposal:
+		return newMovingFundsAction(
+			logger.With(), chain, btcChain, executingWallet, signer, p,
+			startBlock, expiryBlock, waitForBlockFn,
+		).execute()
+	case *MovedFundsSweepProposal:
+		return newMovedFundsSweepAction(
+			logger.With(), chain, btcChain, executingWallet, signer, p,
+			startBlock, expiryBlock, waitForBlockFn,
+		).execute()
+	}
+
+	return fmt.Errorf("unsupported proposal type [%T]", proposal)
+}
